@@ -112,7 +112,7 @@ impl Prop for Algebra {
         "algebra"
     }
     fn cases(&self, tier: Tier) -> u64 {
-        tier.pick(200_000, 4_500_000)
+        tier.pick(200_000, 1_500_000)
     }
     fn strategy(&self, tier: Tier) -> BoxedStrategy<Case> {
         let mut shape = HistoryShape::default_for(tier);
